@@ -24,7 +24,7 @@ ALPHA = 'a1 ,":'
 
 def par_for(n):
     """a worker's start-up (building the pyparsing grammar) costs ~5 CPU-seconds"""
-    return 4 if n < 3000 else 8
+    return 8 if n < 3000 else 16
 
 
 def bf(b):
@@ -269,7 +269,7 @@ def device_vs_spec(exe, parts, seq, raw):
 DATA_SRC = ['DATA 11, 12', 'DATA 21', 'DATA 31,,"3,c"', ' DATA x4 , 42 ']
 DATA_ITEMS = [[I('11'), I('12')], [I('21')], [I('31'), E, I('3,c')], [I('x4'), I('42')]]
 LNAMES = ['la', 'lb', 'lc']
-VARS = {1: 'a%', 2: 'b&', 3: 'c!', 4: 'd#', 5: 'e$'}
+SUFFIX = {1: '%', 2: '&', 3: '!', 4: '#', 5: '$'}
 CONFIGS = [(lv, dbg) for lv in (0, 1, 2) for dbg in (False, True)]
 STYLES = ['own', 'same', 'num']
 POSS = ['top', 'bottom', 'split']
@@ -306,8 +306,8 @@ def scripts_for(lay):
     def cyc(k, s=0):
         return [('R', (i + s) % 5 + 1) for i in range(k)]
     out = [('all-str', rs(n_items + 1)),
-           ('all-cycle', cyc(n_items + 1)),
-           ('bare-mid', rs(2) + [('X', None)] + rs(n_items + 1)),
+           ('all-cycle', cyc(n_items)),
+           ('bare-mid', rs(2) + [('X', None)] + rs(n_items)),
            ('bare-first', [('X', None)] + cyc(n_items + 1, 4))]
     for l in labels:
         out.append(('label-' + l, rs(1) + [('X', l)] + rs(n_items + 1)))
@@ -321,8 +321,9 @@ def scripts_for(lay):
     return out
 
 
-def render(lay, script, codepos, style, plain_sub):
-    """QBASIC text.  style: 'own' label on its own line, 'same' label on the line of the
+def render(lay, script, codepos, style, plain_sub, single_reads=False):
+    """QBASIC text.  Every READ goes to a variable of its own (v<k><type suffix>); consecutive
+    READs form one READ statement unless single_reads; one PRINT of all variables at the end.  style: 'own' label on its own line, 'same' label on the line of the
     following DATA, 'num' line numbers instead of labels"""
     num = {n: str(100 + 10 * i) for i, n in enumerate(LNAMES + ['lq'])}
     lab = (lambda n: num[n]) if style == 'num' else (lambda n: n)
@@ -346,20 +347,32 @@ def render(lay, script, codepos, style, plain_sub):
             else:
                 pend = head
         else:
-            blocks.append(['SUB s%s%d' % (e[1], len(blocks)), head + ' PRINT "in sub"', 'END SUB'])
+            blocks.append(['SUB s%s%d' % (e[1], len(blocks)), head, 'END SUB'])
     if pend is not None:
         blocks.append([pend])
     code = []
+    names = []
+    run = []             # variables of the READ statement being built
     for o in script:
         if o[0] == 'R':
-            code += ['READ ' + VARS[o[1]], 'PRINT ' + VARS[o[1]]]
-        elif o[1] is None:
-            code.append('RESTORE')
+            v = 'v%d%s' % (len(names) + 1, SUFFIX[o[1]])
+            names.append(v)
+            run.append(v)
+            if single_reads:
+                code.append('READ ' + v)
+                run = []
         else:
-            code.append('RESTORE ' + lab(o[1]))
+            if run:
+                code.append('READ ' + ', '.join(run))
+                run = []
+            code.append('RESTORE' if o[1] is None else 'RESTORE ' + lab(o[1]))
+    if run:
+        code.append('READ ' + ', '.join(run))
+    if names:
+        code.append('PRINT ' + '; '.join(names))
     if plain_sub:
         k = len(blocks) // 2
-        blocks = blocks[:k] + [['SUB sp', 'PRINT "sp"', 'END SUB']] + blocks[k:]
+        blocks = blocks[:k] + [['SUB sp', 'END SUB']] + blocks[k:]
     if codepos == 'top':
         blocks = [code] + blocks
     elif codepos == 'bottom':
@@ -386,7 +399,8 @@ def model_ops(script):
     return [[0, o[1]] if o[0] == 'R' else ([1] if o[1] is None else [1, o[1]]) for o in script]
 
 
-def expected_print(cell):
+def expected_piece(cell):
+    """text PRINT v; puts for a value (None: not a small integer, not checked)"""
     t, v = cell[0], cell[1]
     if t in (1, 2):
         z = v
@@ -396,10 +410,24 @@ def expected_print(cell):
             return None
         z = int(f)
     elif t == 5:
-        return l2s(v) + '\r\n'
+        return l2s(v)
     else:
         return None
-    return (' ' if z >= 0 else '') + str(z) + ' \r\n'
+    return (' ' if z >= 0 else '') + str(z) + ' '
+
+
+def prints_ok(raw):
+    """the single PRINT at the end shows the values read, in order; nothing is printed
+    when the run stopped at a trap"""
+    got = [l2s(p) for p in raw['prints']]
+    if raw['outcome'][1] is not None or not raw['reads']:
+        return got == []
+    pieces = [expected_piece(x) for x in raw['reads']]
+    if len(got) != 1:
+        return False
+    if any(x is None for x in pieces):
+        return True
+    return got[0] == ''.join(pieces) + '\r\n'
 
 
 def norm_prog(raw):
@@ -473,12 +501,11 @@ def suite_programs(ctx, exe, cases, suite):
                                     'runs-to-end' if m_spec[2] == 0 else 'runtime-error'))
         if 'reads' in raw:
             # printed values follow the values read; the data section is the model's
-            want = [expected_print(x) for x in raw['reads']]
-            got = [l2s(p) for p in raw['prints']]
-            if len(want) != len(got) or any(w is not None and w != g for w, g in zip(want, got)) \
-                    or raw['others'] or (raw['outcome'][1] is None and raw['stack'] != 0):
+            if not prints_ok(raw) or raw['others'] or \
+                    (raw['outcome'][1] is None and raw['stack'] != 0):
                 ctx.report('C15/program-prints-differ-from-values-read',
-                           dict(detail, prints=got, others=raw['others'], stack=raw['stack']), True)
+                           dict(detail, prints=[l2s(p) for p in raw['prints']],
+                                others=raw['others'], stack=raw['stack']), True)
             if raw['data'] != m_parts:
                 ctx.report('C15/data-section-model-differs',
                            dict(detail, impl_data=raw['data'], model_data=m_parts), False)
@@ -514,9 +541,9 @@ def build_programs(tier):
     quick_set = set(json.dumps(l) for l in layouts(3, 2))
     cases = []
 
-    def add(lay, sname, script, lv, dbg, style, pos, ps):
+    def add(lay, sname, script, lv, dbg, style, pos, ps, single=False):
         cases.append(dict(lay=lay, script=sname, level=lv, debug=dbg, evs=model_evs(lay),
-                          ops=model_ops(script), src=render(lay, script, pos, style, ps)))
+                          ops=model_ops(script), src=render(lay, script, pos, style, ps, single)))
     for lay in lays:
         in_quick = json.dumps(lay) in quick_set
         for sname, script in scripts_for(lay):
@@ -524,10 +551,11 @@ def build_programs(tier):
             # stable hash of (layout, script), so that quick is a subset of thorough
             h = zlib.crc32(json.dumps([lay, sname]).encode())
             style, pos, ps = STYLES[h % 3], POSS[(h // 3) % 3], (h // 9) % 4 == 0
+            single = (h // 1296) % 4 == 0
             two = [CONFIGS[(h // 36) % 6], CONFIGS[((h // 36) + 3 + (h // 216) % 2) % 6]]
-            cfgs = two if (quick or not in_quick) else CONFIGS
+            cfgs = two[:1] if quick else two if not in_quick else CONFIGS
             for (lv, dbg) in cfgs:
-                add(lay, sname, script, lv, dbg, style, pos, ps)
+                add(lay, sname, script, lv, dbg, style, pos, ps, single)
             if not quick and in_quick and (sname in ('all-cycle', 'bare-mid') or sname.startswith('label-')):
                 # every label style x code position, level 0
                 for st in STYLES:
@@ -600,14 +628,14 @@ def main(tier, seed):
 
     # ---- C: programs
     lays, cases = build_programs(tier)
-    how = (' (two of the six configurations per program, rotating)' if quick else
+    how = (' (one of the six configurations per program, rotating)' if quick else
            ' (all six for the layouts of the quick tier, two rotating for the larger ones; for the '
            'quick-tier layouts also every label style x code position at level 0)')
     ctx.rule.append(f'C: {len(lays)} layouts = every arrangement of 1..{3 if quick else 4} DATA statements and '
                     f'0..{2 if quick else 3} labels (each at module level or inside a SUB), each with the scripts '
                     f'read-all (strings / cycling types), bare RESTORE (first, mid), RESTORE every label, every '
                     f'ordered label pair, sub-label and undefined target; label styles own-line/same-line/'
-                    f'line-number, code before/after/between the DATA, plain SUB inserted (rotating by a hash); '
+                    f'line-number, code before/after/between the DATA, plain SUB inserted, one READ statement per run of READs or per variable (rotating by a hash); one PRINT of all variables read at the end; '
                     f'+ 3 duplicate-label layouts; compiled at levels 0,1,2 x debug on/off{how}, '
                     f'run on the real machine; {len(cases)} runs; non-trivial = distinct (layout, script)')
     for c in cases:
